@@ -243,7 +243,8 @@ pub fn exemptions(a: &Analysis, t: &Txn, side: &Side, ent: usize) -> Exempt {
             if *ue == ent && *id == t.key && *accepted {
                 match op {
                     UserOp::Suspend => suspended = true,
-                    UserOp::Resume => suspended = false,
+                    // a cancel request ends a suspension: the cancelled transaction has to end
+                    UserOp::Resume | UserOp::Cancel => suspended = false,
                     _ => {}
                 }
             }
